@@ -59,6 +59,47 @@ pub fn gen_tree(rng: &mut Rng, hostile_text: bool) -> CmdSpec {
     spec
 }
 
+/// number of option entries of the script that spell the short `-c`, in the shell's entry format
+fn short_entries(g: &str, script: &str, c: char) -> usize {
+    let count = |pat: &str| script.matches(pat).count();
+    match g {
+        "bash" => script
+            .lines()
+            .filter(|l| l.trim_start().starts_with("opts=\""))
+            .map(|l| l.split(|ch: char| ch == ' ' || ch == '"').filter(|t| *t == format!("-{}", c)).count())
+            .sum(),
+        "zsh" => {
+            // '<conflicts><*>-c[help]' and '<conflicts><*>-c+[help]:...'
+            let mut n = 0;
+            for pat in [format!("-{}[", c), format!("-{}+[", c)] {
+                let mut from = 0;
+                while let Some(i) = script[from..].find(&pat) {
+                    let at = from + i;
+                    if at > 0 && matches!(script.as_bytes()[at - 1], b'\'' | b')' | b'*') {
+                        n += 1;
+                    }
+                    from = at + 1;
+                }
+            }
+            n
+        }
+        "fish" => script.lines().map(|l| l.split(' ').collect::<Vec<_>>().windows(2).filter(|w| w[0] == "-s" && w[1] == c.to_string()).count()).sum(),
+        "powershell" => count(&format!("::new('-{}'", c)),
+        "elvish" => count(&format!("cand -{} '", c)),
+        "nushell" => {
+            count(&format!("(-{})", c))
+                + script
+                    .lines()
+                    .filter(|l| {
+                        let t = l.trim_start();
+                        t.strip_prefix(&format!("-{}", c)).map(|r| r.is_empty() || r.starts_with(':') || r.starts_with(' ')).unwrap_or(false)
+                    })
+                    .count()
+        }
+        _ => 0,
+    }
+}
+
 fn has_double_underscore(c: &CmdSpec) -> bool {
     c.name.contains("__") || c.subs.iter().any(has_double_underscore)
 }
@@ -81,6 +122,16 @@ fn expectations(c: &CmdSpec, depth: usize, inherited_hidden: bool, out: &mut Vec
         for (al, vis) in &a.aliases {
             if *vis {
                 items.push(("long-visible-alias", al.clone()));
+            }
+        }
+        if !a.is_positional() {
+            if let Some(c) = a.short {
+                items.push(("short", c.to_string()));
+            }
+            for (c, vis) in &a.short_aliases {
+                if *vis {
+                    items.push(("short-visible-alias", c.to_string()));
+                }
             }
         }
         if a.takes_values() && !a.hide_possible_values {
@@ -248,6 +299,9 @@ pub fn case(seed: u64, st: &mut Stats) {
                 continue;
             }
             for (class, text) in &e.items {
+                if class.starts_with("short") {
+                    continue; // one character: counted per shell format below
+                }
                 st.count("mention.checked");
                 if !s1.contains(text.as_str()) {
                     st.violation(
@@ -256,6 +310,34 @@ pub fn case(seed: u64, st: &mut Stats) {
                     );
                     break 'outer;
                 }
+            }
+        }
+        // shorts: a single character cannot be searched as a marker; per character the script must
+        // hold at least as many option entries spelling `-c` (in the shell's own entry format) as
+        // there are (level, visible argument) pairs carrying it
+        let mut want: std::collections::BTreeMap<(char, &'static str), usize> = Default::default();
+        for e in exps.iter().filter(|e| e.depth <= max_depth) {
+            for (class, text) in e.items.iter().filter(|(c, _)| c.starts_with("short")) {
+                *want.entry((text.chars().next().unwrap(), class)).or_default() += 1;
+            }
+        }
+        let mut per_char: std::collections::BTreeMap<char, (usize, &'static str)> = Default::default();
+        for ((c, class), n) in want {
+            let e = per_char.entry(c).or_insert((0, class));
+            e.0 += n;
+            if class == "short-visible-alias" {
+                e.1 = class;
+            }
+        }
+        for (c, (n, class)) in per_char {
+            st.count("mention.short-checked");
+            let have = short_entries(g, &s1, c);
+            if have < n {
+                st.violation(
+                    format!("c16:not-mentioned:{}:{}", g, class),
+                    format!("-{} is carried by {} visible (level, argument) pairs but the {} script has {} entries for it | {}", c, n, g, have, ctx()),
+                );
+                break;
             }
         }
         if g == "bash" {
